@@ -355,6 +355,43 @@ class _Taint:
                     self.sites += 1
                     self.report(comp, "a sequence is built from the unordered map in arrival order and used without sorted()", "sequence-in-arrival-order")
             return
+        if isinstance(parent, ast.Starred):
+            # zip(*results): the columns of an arrival-ordered list of (key, value) items are arrival-ordered sequences;
+            # what they are bound to is followed by propagate() / the uses of those names
+            gp = self.pm.get(id(parent))
+            if isinstance(gp, ast.Call) and (dotted(gp.func) or "").split(".")[-1] == "zip":
+                ggp = self.pm.get(id(gp))
+                if isinstance(ggp, ast.Assign):
+                    for t in ggp.targets:
+                        for nm in _targets(t):
+                            self.containers.add(nm)
+                    return
+            self.sites += 1
+            self.report(parent, "an arrival-ordered container is unpacked positionally", "positional-unpack")
+            return
+        if isinstance(parent, ast.Call) and (dotted(parent.func) or "").split(".")[-1] == "argsort" and x is not parent.func and k in ("cont", "iter"):
+            # np.argsort(<keys in arrival order>) is the GATHER permutation: values[argsort(keys)] are the values in key
+            # order (a sorted barrier); used as the index of a STORE it applies the inverse permutation — right only when
+            # the arrival order happens to be its own inverse (identity, single swaps, reversal)
+            perm_names = set()
+            gp = self.pm.get(id(parent))
+            if isinstance(gp, ast.Assign) and len(gp.targets) == 1 and isinstance(gp.targets[0], ast.Name):
+                perm_names.add(gp.targets[0].id)
+            verdict = None
+            for y in walk_no_nested(fi.node):
+                if isinstance(y, ast.Subscript) and (any(z is parent for z in ast.walk(y.slice)) or any(isinstance(z, ast.Name) and z.id in perm_names for z in ast.walk(y.slice))):
+                    if isinstance(y.ctx, ast.Store):
+                        verdict = ("scatter", y)
+                        break
+                    verdict = verdict or ("gather", y)
+            self.sites += 1
+            if verdict is not None and verdict[0] == "scatter":
+                self.report(self.pm.get(id(verdict[1])) or verdict[1], f"`{unparse(verdict[1])[:60]} = …` stores the arrival-ordered values at the positions np.argsort(keys): argsort is the gather permutation, as a store index it applies the inverse — the rows land under the right key only for arrival orders that are their own inverse (in order, two swapped, reversed), otherwise under another patch", "argsort-as-scatter-index")
+            elif verdict is not None:
+                self.res.ok("C05.R1", self.res.site(fi, norm_stmt(verdict[1])[:60]), "values gathered in key order through np.argsort(keys)")
+            else:
+                self.report(parent, "np.argsort of an arrival-ordered key sequence is computed but its use as a gather / store index was not recognised", "argsort-use-unknown")
+            return
         if isinstance(parent, ast.Call):
             fn = (dotted(parent.func) or "").split(".")[-1]
             tg = self.prog.resolve_call(fi, parent)
@@ -738,10 +775,19 @@ def rule_r5(prog, res) -> None:
         raise AnalysisError(f"C05.R5: only {n} classes with a pickle state protocol found, minimum 3")
 
 
+def rule_r6(prog, res) -> None:
+    """what a worker reports for a patch does not depend on which pair of patches it was working on: every bin of the per-pair result is recorded on every path through the bin loop — a skipped bin leaves a value that differs from what other pairs report for the same patch, and the collector keeps whichever pair finished last (= C01.R5)"""
+    from . import c01
+    from .common import shared_rule
+
+    shared_rule(res, c01.rule_r5, "C01", "C01.R5", "C05.R6")
+
+
 RULES = [
     ("C05.R1", rule_r1, QUICK),
     ("C05.R2", rule_r2, QUICK),
     ("C05.R3", rule_r3, QUICK),
     ("C05.R4", rule_r4, QUICK),
     ("C05.R5", rule_r5, QUICK),
+    ("C05.R6", rule_r6, QUICK),
 ]
